@@ -440,13 +440,20 @@ nextStateFile:
 	if err != nil {
 		return nil, err
 	}
+	mgr.pcapOverIPPackets = make(chan pcapOverIPPacket, 100)
+	mgr.pcapOverIPCmd = make(chan pcapOverIPCmd, 1)
+	// the endpoints have to be known before the state is saved
+	for a := range pcapOverIPEndpoints {
+		mgr.pcapOverIPEndpoints = append(mgr.pcapOverIPEndpoints, mgr.newPcapOverIPEndpoint(ctx, a))
+	}
 	if len(mgr.builder.KnownPcaps()) != len(cachedKnownPcapData) {
 		if err := mgr.saveState(); err != nil {
+			for _, e := range mgr.pcapOverIPEndpoints {
+				e.cancel()
+			}
 			return nil, fmt.Errorf("unable to save state: %w", err)
 		}
 	}
-	mgr.pcapOverIPPackets = make(chan pcapOverIPPacket, 100)
-	mgr.pcapOverIPCmd = make(chan pcapOverIPCmd, 1)
 
 	go func() {
 		for f := range mgr.jobs {
@@ -459,9 +466,6 @@ nextStateFile:
 		mgr.startTaggingJobIfNeeded()
 		mgr.startConverterJobIfNeeded()
 		mgr.startMergeJobIfNeeded()
-		for a := range pcapOverIPEndpoints {
-			mgr.pcapOverIPEndpoints = append(mgr.pcapOverIPEndpoints, mgr.newPcapOverIPEndpoint(ctx, a))
-		}
 	}
 	return &mgr, nil
 }
